@@ -562,6 +562,9 @@ func (Engine) Run(t *testing.T, tape *simrt.Tape, opt worker.Options) *worker.Ou
 	oc.Sample = map[string]interface{}{"hooks": len(r.hooks), "tasks": len(tasks), "handles": len(r.handles), "ops": r.ops, "calls": len(r.calls), "steps": res.Steps, "switches": res.Switches}
 	if oc.Verdict != nil {
 		oc.Pattern = oc.Verdict.Oracle
+		if len(res.StuckSites) > 0 {
+			oc.Pattern = "stuck:" + strings.Join(res.StuckSites, "|")
+		}
 	}
 	return oc
 }
